@@ -74,10 +74,15 @@ private theorem eff_configured (c : ClientCfg) (hc : eqc ∉ c.cookieKey) (k : B
     effective_nil]
   simp [Option.or_assoc]
 
-private theorem eff_build (P : Params) (c : ClientCfg) (cmdEnv hostEnv : List Bytes) (k : Bytes) :
+/-- with the configured entries appended last, `cmd.Env` is: the caller's entries, the inherited ones, the configured ones -/
+theorem buildEnv_last (P : Params) (hL : P.configuredLast = true) (c : ClientCfg) (cmdEnv hostEnv : List Bytes) :
+    buildEnv P c cmdEnv hostEnv = cmdEnv ++ hostPart P c hostEnv ++ configured c := by
+  simp [buildEnv, hL]
+
+private theorem eff_build (P : Params) (hL : P.configuredLast = true) (c : ClientCfg) (cmdEnv hostEnv : List Bytes) (k : Bytes) :
     effective (buildEnv P c cmdEnv hostEnv) k =
       (effective (configured c) k).or ((effective (hostPart P c hostEnv) k).or (effective cmdEnv k)) := by
-  unfold buildEnv
+  rw [buildEnv_last P hL]
   rw [effective_append, effective_append]
 
 /-- With the facts good, nothing inherited carries a conditional variable. -/
@@ -97,6 +102,7 @@ list, and each conditional variable exactly when (and with the value) the
 configuration asks for it; independent of the host environment. -/
 theorem controls_from_config (P : Params) (hP : P.Good) (c : ClientCfg) (hc : CookieOk c)
     (cmdEnv hostEnv : List Bytes) : Dictated c cmdEnv (buildEnv P c cmdEnv hostEnv) := by
+  have hL : P.configuredLast = true := hP.2.2.2.2.1
   obtain ⟨hc1, hc2⟩ := hc
   have hne : ∀ k ∈ negotiationKeys, ¬ k = c.cookieKey := fun k hk e => hc2 (e ▸ hk)
   have h1 := hne kMinPort (by decide)
@@ -111,21 +117,21 @@ theorem controls_from_config (P : Params) (hP : P.Good) (c : ClientCfg) (hc : Co
   have hg := hostPart_none P hP c hostEnv kGroup (by decide)
   have hd := hostPart_none P hP c hostEnv kDir (by decide)
   constructor
-  · rw [eff_build, eff_configured c hc1]
+  · rw [eff_build P hL, eff_configured c hc1]
     simp [h1, h2, h3, h4, h5, h6, h7]
-  · rw [eff_build, eff_configured c hc1]
+  · rw [eff_build P hL, eff_configured c hc1]
     simp (config := { decide := true }) [Ne.symm h1]
-  · rw [eff_build, eff_configured c hc1]
+  · rw [eff_build P hL, eff_configured c hc1]
     simp (config := { decide := true }) [Ne.symm h2]
-  · rw [eff_build, eff_configured c hc1]
+  · rw [eff_build P hL, eff_configured c hc1]
     simp (config := { decide := true }) [Ne.symm h3]
-  · rw [eff_build, eff_configured c hc1, hm]
+  · rw [eff_build P hL, eff_configured c hc1, hm]
     cases hmux : c.mux <;> simp (config := { decide := true }) [Ne.symm h4]
-  · rw [eff_build, eff_configured c hc1, hce]
+  · rw [eff_build P hL, eff_configured c hc1, hce]
     cases hx : c.autoMTLS <;> simp (config := { decide := true }) [Ne.symm h5]
-  · rw [eff_build, eff_configured c hc1, hg]
+  · rw [eff_build P hL, eff_configured c hc1, hg]
     by_cases hx : c.group = [] <;> simp (config := { decide := true }) [Ne.symm h6, hx]
-  · rw [eff_build, eff_configured c hc1, hd]
+  · rw [eff_build P hL, eff_configured c hc1, hd]
     cases hx : c.runnerFunc <;> simp (config := { decide := true }) [Ne.symm h7]
 
 /-- a plain configuration: cookie `K=V`, ports 10000–25000, versions {1, 2}, nothing optional -/
@@ -133,7 +139,7 @@ def cfgPlain : ClientCfg :=
   ⟨[75], [86], 10000, 25000, [1, 2], false, false, [], [], false, [], false⟩
 
 /-- a facts record of a tree that filters the conditional variables -/
-def goodParams : Params := ⟨true, conditionalKeys, true⟩
+def goodParams : Params := ⟨true, conditionalKeys, true, true, true⟩
 
 example : goodParams.Good := by decide
 example : CookieOk cfgPlain := by decide
@@ -202,7 +208,7 @@ at all, so no host variable is passed. -/
 theorem skip_host_env (P : Params) (hP : P.Good) (c : ClientCfg) (hskip : c.skipHostEnv = true)
     (cmdEnv hostEnv : List Bytes) :
     buildEnv P c cmdEnv hostEnv = cmdEnv ++ configured c := by
-  simp [buildEnv, hostPart, hP.1, hskip]
+  simp [buildEnv, hostPart, hP.1, hskip, hP.2.2.2.2.1]
 
 /-- … in membership form: every entry of the result was pre-set by the caller or is configured. -/
 theorem skip_host_env_mem (P : Params) (hP : P.Good) (c : ClientCfg) (hskip : c.skipHostEnv = true)
@@ -223,7 +229,7 @@ theorem host_env_passed (P : Params) (hP : P.Good) (c : ClientCfg) (hskip : c.sk
     (hostEnv.filter (fun e => !(negotiationKeys.contains (cutKey e)))).Sublist (buildEnv P c cmdEnv hostEnv) := by
   have h1 : (hostEnv.filter (fun e => !(negotiationKeys.contains (cutKey e)))).Sublist
       (hostPart P c hostEnv) := by
-    simp only [hostPart, filterHost, hP.2.2.2, hskip, Bool.and_false, Bool.false_eq_true, if_false, if_true]
+    simp only [hostPart, filterHost, hP.2.2.2.1, hskip, Bool.and_false, Bool.false_eq_true, if_false, if_true]
     induction hostEnv with
     | nil => simp
     | cons e es ih =>
@@ -242,7 +248,7 @@ theorem host_env_passed (P : Params) (hP : P.Good) (c : ClientCfg) (hskip : c.sk
         split
         · exact ih.cons _
         · exact ih
-  unfold buildEnv
+  rw [buildEnv_last P hP.2.2.2.2.1]
   exact (h1.trans (List.sublist_append_right cmdEnv _)).trans (List.sublist_append_left _ _)
 
 example : [72, 61, 49] ∈ buildEnv goodParams cfgPlain [] [entry kMux sTrue, [72, 61, 49]] := by decide
@@ -251,8 +257,8 @@ example : [72, 61, 49] ∈ buildEnv goodParams cfgPlain [] [entry kMux sTrue, [7
 (`c.versions` is any permutation of the offered keys), `PLUGIN_PROTOCOL_VERSIONS`
 is set, is empty iff nothing is offered, and splitting it at commas and parsing
 each piece with `strconv.Atoi` (what the plugin does) succeeds on every piece
-and yields a permutation of the offered keys.  Holds without `Params.Good`. -/
-theorem versions_exact (P : Params) (c : ClientCfg) (cmdEnv hostEnv : List Bytes)
+and yields a permutation of the offered keys.  Needs only that the configured entries come last. -/
+theorem versions_exact (P : Params) (hL : P.configuredLast = true) (c : ClientCfg) (cmdEnv hostEnv : List Bytes)
     (offered : List Int) (hperm : c.versions.Perm offered)
     (hrange : ∀ v ∈ offered, -(2 ^ 63 : Int) ≤ v ∧ v < (2 ^ 63 : Int)) :
     ∃ value, effective (buildEnv P c cmdEnv hostEnv) kVersions = some value ∧
@@ -260,7 +266,7 @@ theorem versions_exact (P : Params) (c : ClientCfg) (cmdEnv hostEnv : List Bytes
       (offered ≠ [] → ∃ parsed : List Int,
         (split comma value).map atoi = parsed.map some ∧ parsed.Perm offered) := by
   refine ⟨renderVersions c.versions, ?_, ?_, ?_⟩
-  · rw [eff_build]
+  · rw [eff_build P hL]
     have : effective (configured c) kVersions = some (renderVersions c.versions) := by
       unfold configured
       rw [effective_append, effective_append, effective_append, effective_append]
@@ -308,16 +314,22 @@ example : effective (buildEnv goodParams { cfgPlain with versions := [2, -1, 10]
     = some [50, 44, 45, 49, 44, 49, 48] := by decide
 
 /-- **Stdin**: the runner receives the host's own stdin, whatever was pre-set on `config.Cmd`. -/
-theorem stdin_is_host_stdin (P : Params) (c : ClientCfg) (cmdEnv hostEnv : List Bytes) (s : Stdin) :
+theorem stdin_is_host_stdin (P : Params) (hP : P.Good) (c : ClientCfg) (cmdEnv hostEnv : List Bytes) (s : Stdin) :
     (launch P c cmdEnv hostEnv s).stdin = .host ∧
-    (launch P c cmdEnv hostEnv s).env = buildEnv P c cmdEnv hostEnv := ⟨rfl, rfl⟩
+    (launch P c cmdEnv hostEnv s).env = buildEnv P c cmdEnv hostEnv := by
+  simp [launch, hP.2.2.2.2.2]
+
+/-- Witness: when the stdin default is applied anywhere but unconditionally in `Start`, a command that carries a stdin
+of its own keeps it -/
+theorem stdin_not_from_start_witness :
+    (launch ⟨true, conditionalKeys, true, true, false⟩ cfgPlain [] [] .preset).stdin = .preset := by decide
 
 example : (launch goodParams cfgPlain [] [] .preset).stdin = .host := by decide
 
 /-! ### The structural facts matter: witnesses of the violation when a fact is false -/
 
 /-- the facts of the tree that appends `os.Environ()` unfiltered -/
-def unfilteredParams : Params := ⟨true, [], true⟩
+def unfilteredParams : Params := ⟨true, [], true, true, true⟩
 
 /-- **D8**: on a tree that inherits the host environment unfiltered, a host that
 is itself a plugin (its environment carries go-plugin's variables) passes each
@@ -331,21 +343,21 @@ theorem inherited_controls_witness :
 
 /-- Filtering only some of them is not enough: each conditional variable needs to be stripped. -/
 theorem partial_strip_witness :
-    effective (buildEnv ⟨true, [kMux, kCert, kGroup], true⟩ cfgPlain [] [entry kDir [47, 120]]) kDir = some [47, 120] := by
+    effective (buildEnv ⟨true, [kMux, kCert, kGroup], true, true, true⟩ cfgPlain [] [entry kDir [47, 120]]) kDir = some [47, 120] := by
   decide
 
 /-- With `SkipHostEnv` not guarding the append, host variables reach the plugin. -/
 theorem skip_unguarded_witness :
-    ¬ (⟨false, conditionalKeys, true⟩ : Params).Good ∧
-    [72, 61, 49] ∈ buildEnv ⟨false, conditionalKeys, true⟩ { cfgPlain with skipHostEnv := true } [] [[72, 61, 49]] := by
+    ¬ (⟨false, conditionalKeys, true, true, true⟩ : Params).Good ∧
+    [72, 61, 49] ∈ buildEnv ⟨false, conditionalKeys, true, true, true⟩ { cfgPlain with skipHostEnv := true } [] [[72, 61, 49]] := by
   decide
 
 /-- A filter that also removes variables that are not go-plugin's is rejected by `Good`
 (and `host_env_passed` fails for it): here `HOME` is dropped. -/
 theorem overstrip_witness :
-    ¬ (⟨true, [72, 79, 77, 69] :: conditionalKeys, true⟩ : Params).Good ∧
+    ¬ (⟨true, [72, 79, 77, 69] :: conditionalKeys, true, true, true⟩ : Params).Good ∧
     entry [72, 79, 77, 69] [47] ∉
-      buildEnv ⟨true, [72, 79, 77, 69] :: conditionalKeys, true⟩ cfgPlain [] [entry [72, 79, 77, 69] [47]] := by
+      buildEnv ⟨true, [72, 79, 77, 69] :: conditionalKeys, true, true, true⟩ cfgPlain [] [entry [72, 79, 77, 69] [47]] := by
   decide
 
 /-! ### The filter loop itself: no conditional variable survives, wherever it stands -/
@@ -373,7 +385,8 @@ theorem conditional_entries_from_config (P : Params) (hP : P.Good) (c : ClientCf
     (cmdEnv hostEnv : List Bytes) :
     ∀ e ∈ buildEnv P c cmdEnv hostEnv, cutKey e ∈ conditionalKeys → e ∈ cmdEnv ∨ e ∈ configured c := by
   intro e he hk
-  simp only [buildEnv, List.mem_append] at he
+  rw [buildEnv_last P hP.2.2.2.2.1] at he
+  simp only [List.mem_append] at he
   rcases he with (he | he) | he
   · exact .inl he
   · exact absurd hk (no_conditional_survives P hP c hostEnv e he)
@@ -420,7 +433,7 @@ example : noAdjacentDrops (fun e => conditionalKeys.contains (cutKey e))
     [entry kMux sTrue, [72, 61, 49], entry kCert [120]] = true := by decide
 
 /-- the facts of a tree whose `hostEnviron` deletes in place without stepping back -/
-def inPlaceParams : Params := ⟨true, conditionalKeys, false⟩
+def inPlaceParams : Params := ⟨true, conditionalKeys, false, true, true⟩
 
 /-- **The loop shape matters.**  With the right set of names but the in-place
 index loop, the second of two ADJACENT conditional variables of the host
@@ -443,9 +456,9 @@ theorem inplace_filter_survivor_witness :
     entry kCert [120] ∈ hostPart inPlaceParams cfgPlain [entry kMux sTrue, entry kCert [120]] ∧
     cutKey (entry kCert [120]) ∈ conditionalKeys := by decide
 
-/-- The unconditional variables hold on every tree: a different cookie value or
-port range in the host's environment never wins (they are appended later). -/
-theorem unconditional_controls_any_params (P : Params) (c : ClientCfg) (hc : CookieOk c)
+/-- The unconditional variables need only the order: a different cookie value or port range in the host's environment
+or on the caller's command never wins (the configured entries are appended later). -/
+theorem unconditional_controls_any_params (P : Params) (hL : P.configuredLast = true) (c : ClientCfg) (hc : CookieOk c)
     (cmdEnv hostEnv : List Bytes) :
     effective (buildEnv P c cmdEnv hostEnv) c.cookieKey = some c.cookieValue ∧
     effective (buildEnv P c cmdEnv hostEnv) kMinPort = some (renderPort c.minPort) ∧
@@ -460,13 +473,19 @@ theorem unconditional_controls_any_params (P : Params) (c : ClientCfg) (hc : Coo
   have h6 := hne kGroup (by decide)
   have h7 := hne kDir (by decide)
   refine ⟨?_, ?_, ?_⟩
-  · rw [eff_build, eff_configured c hc1]
+  · rw [eff_build P hL, eff_configured c hc1]
     simp [h1, h2, h3, h4, h5, h6, h7]
-  · rw [eff_build, eff_configured c hc1]
+  · rw [eff_build P hL, eff_configured c hc1]
     simp (config := { decide := true }) [Ne.symm h1]
-  · rw [eff_build, eff_configured c hc1]
+  · rw [eff_build P hL, eff_configured c hc1]
     simp (config := { decide := true }) [Ne.symm h2]
 
 example : effective (buildEnv unfilteredParams cfgPlain [] [entry [75] [88]]) [75] = some [86] := by decide
+
+/-- Witness: with the caller's entries placed after the configured ones, a stale version list on the caller's command is
+what the plugin sees (the client offers 3, the plugin is told 77) -/
+theorem caller_wins_witness :
+    effective (buildEnv ⟨true, conditionalKeys, true, false, true⟩ { cfgPlain with versions := [3] } [entry kVersions [55, 55]] []) kVersions
+      = some [55, 55] := by decide
 
 end GoPlugin.Props.C17
